@@ -26,7 +26,8 @@ DIGITS: /[0-9]/
 '''
 LIB = '''
 %import .lib2 (NUM)
-args: expr (_comma expr)*
+args: _seq{expr}
+_seq{x}: x (_comma x)*
 expr: NAME | NUM | "(" expr ")" | _neg
 _neg: "-" helper
 helper: NUM
@@ -274,8 +275,17 @@ TPL_ARGS = ['"b"', 'B', '_B', 'r']
 TPL_DEFS = {'"b"': '', 'B': 'B: "b"\n', '_B': '_B: "b"\n', 'r': 'r: "b"\n'}
 
 
+TPL_PRIOS = ['', '.1', '.2']
+
+
 def tpl_grammars(mo, mi, arg, order, shape_):
     a = TPL_ARGS[arg]
+    if shape_ == 2:
+        # template definitions with priorities: two instances compete for the same text (mo, mi select the priorities)
+        first, second = ('a', 'b') if order == 0 else ('b', 'a')
+        templ = 'start: %s{%s} | %s{%s}\na{t}%s: t\nb{t}%s: t\n%s' % (first, a, second, a, TPL_PRIOS[mo], TPL_PRIOS[mi], TPL_DEFS[a])
+        hand = 'start: %s | %s\na%s: %s\nb%s: %s\n%s' % (first, second, TPL_PRIOS[mo], a, TPL_PRIOS[mi], a, TPL_DEFS[a])
+        return templ, hand
     body_t = ['inner{t} t', 't inner{t}'][order]
     body_h = ['inner %s' % a, '%s inner' % a][order]
     if shape_ == 1:
@@ -292,7 +302,7 @@ def _tpl_body(rec, mo, mi, arg, order, shape_, kat):
     mi = hs.sel(mi, 3)
     arg = hs.sel(arg, len(TPL_ARGS))
     order = hs.sel(order, 2)
-    shape_ = hs.sel(shape_, 2)
+    shape_ = hs.sel(shape_, 3)
     kat = bool(kat)
     with hs.untraced():
         templ, hand = tpl_grammars(mo, mi, arg, order, shape_)
@@ -300,8 +310,18 @@ def _tpl_body(rec, mo, mi, arg, order, shape_, kat):
         rec['nontrivial'] = True
         n_in = 0
         for parser in ('lalr', 'earley'):
-            lt = Lark(templ, parser=parser, keep_all_tokens=kat)
-            lh = Lark(hand, parser=parser, keep_all_tokens=kat)
+            built_ = []
+            for src in (templ, hand):
+                try:
+                    built_.append(Lark(src, parser=parser, keep_all_tokens=kat))
+                except GrammarError as e:
+                    built_.append(('grammar-error', 'Reduce/Reduce' if 'Reduce/Reduce' in str(e) else str(e)[:80]))
+            if isinstance(built_[0], tuple) or isinstance(built_[1], tuple):
+                if not (isinstance(built_[0], tuple) and isinstance(built_[1], tuple) and built_[0] == built_[1]):
+                    return hs.fail(rec, 'construction of the templated grammar and of the hand-written one differ', parser=parser, templated=repr(built_[0])[:200],
+                                   by_hand=repr(built_[1])[:200], grammar=templ, hand=hand)
+                continue
+            lt, lh = built_
             for text in ('', 'b', 'bb', 'bbb', 'bbbb', 'bbc', 'bbbc', 'bbbbbb', 'bbbcbbb'):
                 n_in += 1
                 out = []
@@ -317,11 +337,15 @@ def _tpl_body(rec, mo, mi, arg, order, shape_, kat):
     return True
 
 
+PINM = P.get('mo') if P else None
+
+
 def tpl(mo: int, mi: int, arg: int, order: int, shape_: int, kat: bool) -> bool:
     """
+    pre: PINM is None or (mo == PINM[0] and kat == PINM[1])
     post: _
     """
-    return hs.run_path(_tpl_body, (mo, mi, arg, order, shape_, kat), corner=lambda mo, mi, arg, order, shape_, kat: hs.sel(mo, 3) == 2 and hs.sel(mi, 3) == 2 and kat)
+    return hs.run_path(_tpl_body, (mo, mi, arg, order, shape_, kat), corner=lambda mo, mi, arg, order, shape_, kat: hs.sel(mi, 3) == 2 and hs.sel(arg, len(TPL_ARGS)) == 3)
 
 
 def check(ci: int, cs: List[int]) -> bool:
@@ -350,8 +374,10 @@ def plan(tier, seed):
             slices.append({'id': '%s:pair-mode%d:L1' % (parser, pm), 'mode': 'realised', 'params': {'L': 1, 'cfg': None, 'parser': parser, 'pairmode': pm},
                            'timeout': 600 if quick else 3000, 'twin': False,
                            'bound': {'programs': 128, 'statements': 1, 'terminal_dependency': ['imported', '%extend', '%override'][pm]}})
-    slices.append({'id': 'tpl:nested-modifiers', 'func': 'tpl', 'mode': 'realised', 'params': {'L': 0, 'kind': 'tpl'}, 'timeout': 600, 'twin': True,
-                   'bound': {'programs': 3 * 3 * len(TPL_ARGS) * 2 * 2 * 2, 'inputs': 9, 'parsers': 2}})
+    for mo in range(3):
+      for kat in (False, True):
+        slices.append({'id': 'tpl:nested-modifiers:mo%d:kat%d' % (mo, kat), 'func': 'tpl', 'mode': 'realised', 'params': {'L': 0, 'kind': 'tpl', 'mo': [mo, kat]}, 'timeout': 600, 'twin': mo == 0 and not kat,
+                   'bound': {'programs': 3 * len(TPL_ARGS) * 2 * 3, 'inputs': 9, 'parsers': 2}})
     meta = {
         'rule': 'one path per (module-set choice vector, lexeme sequence); non-trivial = accepted input',
         'technique': 'CrossHair solver-closed enumeration (realised) of module-set programs and inputs; a textual inliner implementing the documented renaming rule is the reference',
